@@ -32,7 +32,7 @@ CUSTOM = {
 
 def classify(c):
     zs = Z.case_arrays(c)[0].astype(np.float64).ravel()
-    if np.isneginf(zs).any():
+    if np.isneginf(zs).any() and not Z.source_facts().get("stripIndices"):
         return "stats:neg-inf-zone-cells-shift-slices"
     if np.isnan(zs).any() or np.isposinf(zs).any():
         return "stats:nonfinite-zone-cells"
